@@ -493,6 +493,45 @@ def chain_family(rng, extra):
     return out
 
 
+def contain_family(rng, thorough):
+    """`needle in container` / `not in`: literal containers of 0..8 items (lists, tuples, maps, strings) that hold, at every
+    position, a value equal to the needle only across kinds (bool / int / float, a string and its safe twin, a list
+    and a tuple or a lazy concatenation); needle, container and items are hoisted in all combinations by variants_of"""
+    I = lambda n: ("int", n)
+    S = lambda x: ("str", x)
+    T, F = ("bool", True), ("bool", False)
+    ONEF, ZEROF = ("float", f2b(1.0)), ("float", f2b(0.0))
+    pairs = [(I(1), T), (T, I(1)), (I(1), ONEF), (ONEF, I(1)), (T, ONEF), (ONEF, T), (I(0), F), (F, I(0)), (F, ZEROF), (ZEROF, I(0)),
+             (S("a"), ("filter", "safe", S("a"), [], [])), (I(2 ** 63), ("float", f2b(9.223372036854775808e18))), (("float", f2b(9.223372036854775808e18)), I(2 ** 63)),
+             (("list", [I(1), I(2)]), ("tuple", [I(1), I(2)])), (("tuple", [I(1), I(2)]), ("bin", "+", ("list", [I(1)]), ("list", [I(2)]))),
+             (("none",), S("")), (I(1), S("1")), (S("1"), I(1)), (I(1), I(1)), (S("a"), S("a"))]
+    fill_i = [I(20), I(30), I(40), I(50), I(60), I(70), I(80), I(90)]
+    fill_s = [S("p"), S("q"), S("r"), S("s"), S("t"), S("u"), S("v"), S("w")]
+    out = []
+    for needle, partner in pairs:
+        for kind in ("list", "tuple", "map", "str"):
+            for size in range(0, 9):
+                positions = list(range(size)) if thorough else sorted(set([0, size - 1, rng.below(max(size, 1))]) & set(range(size)))
+                for pos in positions or [None]:
+                    fill = fill_s if rng.chance(1, 3) else fill_i
+                    items = [fill[i] for i in range(size)]
+                    if pos is not None:
+                        items[pos] = partner
+                    if kind == "list": cont = ("list", items)
+                    elif kind == "tuple": cont = ("tuple", items)
+                    elif kind == "map":
+                        if any(x[0] not in ATOMS for x in items): continue
+                        cont = ("map", [(x, I(0)) for x in items])
+                    else:
+                        if needle[0] not in ("str", "int") or partner[0] not in ("str", "int"): continue
+                        cont = S("".join(str(x[1]) for x in items if x[0] in ("str", "int")))
+                    op = rng.choice(["in", "notin"])
+                    out.append(("cmp", needle, [(op, cont)]))
+                    if rng.chance(1, 6):
+                        out.append(("cmp", I(0), [("<", needle if needle[0] in ("int", "float") else I(1)), (op, cont)]))
+    return out
+
+
 # ---------------------------------------------------------------------------------------------
 # generator C (core fragment, where Lang/Interp.v is faithful: typed so that no operator meets
 # operand kinds the reference evaluator does not model)
@@ -1194,6 +1233,37 @@ def multi_obs(it):
 # ---------------------------------------------------------------------------------------------
 # running the harness (several processes)
 # ---------------------------------------------------------------------------------------------
+# profiles: False = default features, debug; True = default features, release;
+#           "po" / "po-debug" = feature preserve_order (IndexMap maps), release / debug, in the target dir C07 uses for it
+def po_target_dir():
+    import vlib as _v
+    return os.path.join(_v.CACHE, "target-po" + _v._TAG)
+
+
+def cargo_build_po(release):
+    import vlib as _v
+    h = _v.harness_dir()
+    env = dict(ENV)
+    env["CARGO_TARGET_DIR"] = po_target_dir()
+    with _v.Lock("cargo" + _v._TAG):
+        lock_dst = os.path.join(h, "Cargo.lock")
+        if not os.path.exists(lock_dst):
+            sh(["cp", os.path.join(_v.REPO, "Cargo.lock"), lock_dst])
+        cmd = ["cargo", "build", "--offline", "--quiet", "--bin", "c04", "--features", "preserve_order"] + (["--release"] if release else [])
+        rc, o, e = sh(cmd, cwd=h, timeout=3000, env=env)
+        return rc == 0, o + e
+
+
+def c04_bin(profile):
+    if isinstance(profile, str):
+        return os.path.join(po_target_dir(), "release" if profile == "po" else "debug", "c04")
+    return bin_path("c04", profile)
+
+
+def prof(profile):
+    return {False: "debug", True: "release", "po": "preserve_order release", "po-debug": "preserve_order debug"}[profile]
+
+
 def run_c04(reqs, release=False, workers=12):
     if not reqs:
         return []
@@ -1202,7 +1272,7 @@ def run_c04(reqs, release=False, workers=12):
     n = max(1, min(workers, len(reqs) // 8 + 1))
     chunks = [reqs[i::n] for i in range(n)]
     with concurrent.futures.ThreadPoolExecutor(n) as ex:
-        outs = list(ex.map(lambda c: run_json([bin_path("c04", release)], c, env=env), chunks))
+        outs = list(ex.map(lambda c: run_json([c04_bin(release)], c, env=env), chunks))
     res = [None] * len(reqs)
     for j, o in enumerate(outs):
         for i, r in enumerate(o):
@@ -1368,6 +1438,7 @@ def main():
     chk.assumptions = [
         "part A: expressions over the literal syntax (unary, + - * / // % **, ~, comparison chains, and/or/not, in / not in, lists, tuples, maps, negated literals, if-expressions, subscripts, slices, filters and functions with literal keyword arguments, macro calls with keyword arguments, tests); ints from a boundary pool up to 2^128-1, floats by bit pattern (no NaN/inf literals exist), short strings; <= 6 literals: every subset hoisted; 4 undefined behaviours",
         "part D: collection literals (lists, tuples, maps with int/str/bool/none keys incl. duplicates) and calls of two probe callables (function `cargs`, filter `cfilt`: they return what they were given) with positional, keyword, `*x` and `**m` arguments, duplicate keywords, literal and hoisted values; BTreeMap build of the engine (no preserve_order)",
+        "part A also runs on the engine built with feature preserve_order (IndexMap maps; C07's target dir): quick = the chain and containment families + 600 random expressions in the release build, thorough = everything in both builds",
         "part E: templates whose STATEMENTS carry the constants - if / elif / for / with / set / autoescape / include / extends / import / from-import / filter-block arguments / macro defaults / call blocks -, with declarations of template-wide effect (blocks used through self.name() or inheritance, macros, set, imports) in taken and untaken branches; one environment with a base, an included and an imported template; literal form against every hoisted subset (<= 6 literals), lenient / strict / chainable",
         "part F: every builtin callable that takes keyword arguments (indent, tojson, groupby, dictsort, sort, unique, map, format, dict, namespace), macros and probe callables that consume keywords conditionally and call assert_all_used; subsets of their keywords incl. unexpected and duplicate ones; the call site runs 2-3 times (loop, macro called repeatedly, one template rendered repeatedly on one environment) with different positional selectors; literal keywords against every hoisted subset",
         "part C: core fragment of Lang/Interp.v (unbounded ints represented up to i128, ASCII strings, bools, none, lists, maps with scalar keys - literals with constant / computed / duplicate keys, a map variable, `in`, ==, subscripts, length, truthiness -, ==/!= chains across bool/int; typed so that operators meet the operand kinds the reference evaluator models)",
@@ -1376,6 +1447,10 @@ def main():
     proofs_ok = chk.run_proofs()
     okc, clog = cargo_build(["c04"], release=False)
     okr, clog2 = cargo_build(["c04"], release=True)
+    po_profiles = ["po-debug", "po"] if chk.thorough else ["po"]
+    for pp in po_profiles:
+        okp, clogp = cargo_build_po(pp == "po")
+        okr, clog2 = okr and okp, clog2 + clogp
     if not (okc and okr):
         chk.violation("harness does not build against the current tree", {"theorem_or_correspondence": "build harness/src/bin/c04.rs", "log": (clog + clog2)[-1500:]}, True)
         chk.finish()
@@ -1415,7 +1490,12 @@ def main():
         for e in fam:
             exprs.append((e, chk.rng.choice(MODES)))
             hist["partA_chain_family"] += 1
-        n += len(fam)
+        cfam = [] if os.environ.get("C04_NO_SEEDS") else contain_family(chk.rng, chk.thorough)
+        for e in cfam:
+            exprs.append((e, chk.rng.choice(MODES)))
+            hist["partA_containment_family"] += 1
+        n += len(fam) + len(cfam)
+        po_limit = len(exprs) + (0 if chk.thorough else 600)
         tries = 0
         while len(exprs) < n and tries < 20 * n:
             tries += 1
@@ -1430,21 +1510,34 @@ def main():
     bad_a = []
     printer_bad = []
     BATCH = 4000
+    if chk.replay or chk.thorough:
+        po_limit = len(exprs)
     for b0 in range(0, len(exprs), BATCH):          # batches keep the memory of the thorough tier flat
         bex = exprs[b0:b0 + BATCH]
         vss = [variants_of(e) for e, _ in bex]
         reqs = [request_for(e, md, vs) for (e, md), vs in zip(bex, vss)]
         nvariants += sum(len(v) for v in vss)
-        for rel in (False, True):
-            resp = run_c04_robust(reqs, release=rel)
+        for rel in [False, True] + po_profiles:
+            if isinstance(rel, str):
+                # the preserve_order build: the families and the first random expressions (quick), everything (thorough)
+                sel = [j for j in range(len(bex)) if b0 + j < po_limit]
+                part = run_c04_robust([reqs[j] for j in sel], release=rel)
+                resp = [None] * len(bex)
+                for j, r in zip(sel, part):
+                    resp[j] = r
+                hist["partA_preserve_order_expressions"] += len(sel)
+            else:
+                resp = run_c04_robust(reqs, release=rel)
             for j, ((e, md), vs, r) in enumerate(zip(bex, vss, resp)):
+                if r is None:
+                    continue
                 b = disagreements(vs, r)
                 if b:
                     if len(bad_a) < 200:
                         bad_a.append((b0 + j, rel, b, vs, reqs[j]))
                     else:
                         bad_a.append((b0 + j, rel, b, None, None))
-                if rel:
+                if rel is not False:
                     continue
                 items = (r or {}).get("items") or [{}]
                 it0 = items[0]
@@ -1489,7 +1582,7 @@ def main():
         used = {k: v for k, v in c.items() if k in [x[1] for x in subexprs(vs[vi][1]) if x[0] == "var"]}
         chk.violation("literal and variable forms of an expression behave differently" if kind != "folded-value" else "a folded constant is not the value computed at run time",
                       {"template_literal": "{{ " + src(small) + " }}", "template_hoisted": "{{ " + src(vs[vi][1]) + " }}", "context": used, "undefined": md,
-                       "variant": vs[vi][0], "profile": "release" if rel else "debug",
+                       "variant": vs[vi][0], "profile": prof(rel),
                        "literal_form": {k: (lit or {}).get(k) for k in ("load", "render", "eval", "ops", "const")},
                        "hoisted_form": {k: (var or {}).get(k) for k in ("load", "render", "eval", "ops")},
                        "found_in": "{{ " + src(e) + " }}", "ast": repr(small)})
@@ -1526,13 +1619,13 @@ def main():
                 if it.get("load") != "ok" or it.get("render") != {"ok": want}:
                     chk.violation("a failing constant expression in a position that is never executed is reported anyway" if it.get("load") == "ok" else "a failing constant expression makes loading fail",
                                   {"template": t, "context": {}, "expected": {"load": "ok", "render": {"ok": want}}, "got": {"load": it.get("load"), "render": it.get("render")},
-                                   "profile": "release" if rel else "debug", "failing_ast": repr(f)})
+                                   "profile": prof(rel), "failing_ast": repr(f)})
             for t, it in zip(executed, items[1 + len(guarded):]):
                 nb += 1
                 if it.get("load") != "ok" or it.get("render") != {"err": kind}:
                     chk.violation("a failing constant expression is not reported with the run-time error when executed" if it.get("load") == "ok" else "a failing constant expression makes loading fail",
                                   {"template": t, "context": {}, "expected": {"load": "ok", "render": {"err": kind}}, "got": {"load": it.get("load"), "render": it.get("render")},
-                                   "profile": "release" if rel else "debug", "failing_ast": repr(f)})
+                                   "profile": prof(rel), "failing_ast": repr(f)})
     hist["partB_failing_constant_expressions"] = len(fails)
 
     # ---------------- part C -------------------------------------------------------------------
@@ -1663,7 +1756,7 @@ def main():
         vs = variants_of(cur)
         rr = run_c04([request_for(cur, md, vs)], rel)[0] if count_atoms(cur) else None
         b = disagreements(vs, rr) if rr else []
-        rep = {"template": "{{ " + src(cur) + " }}", "context": {n: tv_py(v) for n, v in LANG_CTX.items()}, "undefined": md, "profile": "release" if rel else "debug",
+        rep = {"template": "{{ " + src(cur) + " }}", "context": {n: tv_py(v) for n, v in LANG_CTX.items()}, "undefined": md, "profile": prof(rel),
                "engine": {"folded_then_value": ex, "ops": (it or {}).get("ops")}, "model_fixed_folder": mm, "model_folder_as_found": mo,
                "lang_ast": repr(cur), "form": which}
         if which == "hoisted":
@@ -1745,7 +1838,7 @@ def main():
             continue
         seen_d.add(src(cur))
         # is it a failing input of the property itself (literal vs hoisted form on the engine)?
-        rep = {"template": "{{ " + src(cur) + " }}", "context": rho_py, "profile": "release" if rel else "debug", "disagreement": why[:600], "coll_ast": repr(cur)}
+        rep = {"template": "{{ " + src(cur) + " }}", "context": rho_py, "profile": prof(rel), "disagreement": why[:600], "coll_ast": repr(cur)}
         vs = variants_of(cur) if count_atoms(cur) else None
         b = []
         if vs:
@@ -1792,7 +1885,7 @@ def main():
                         i = min(diff, key=lambda j: len(vs[j][0]))
                         chk.violation(what_e, {"template_literal": rq["items"][0]["templates"]["main"], "template_hoisted": rq["items"][i]["templates"]["main"],
                                                "other_templates": {k: v for k, v in rq["items"][0]["templates"].items() if k != "main"},
-                                               "contexts_hoisted": rq["items"][i]["ctxs"], "undefined": md, "variant": vs[i][0], "profile": "release" if rel else "debug",
+                                               "contexts_hoisted": rq["items"][i]["ctxs"], "undefined": md, "variant": vs[i][0], "profile": prof(rel),
                                                "literal_form": {"load": items[0].get("load"), "renders": items[0].get("renders")},
                                                "hoisted_form": {"load": items[i].get("load"), "renders": items[i].get("renders")},
                                                "case": label, tag: repr((segs, rq["items"][0]["ctxs"]))})
@@ -1850,7 +1943,7 @@ def main():
         i, rel, s_, ops, ms = min(bad_sub, key=lambda b: len(b[2]))
         chk.violation("the engine folds sub-expressions differently from the model (fold_sub)",
                       {"theorem_or_correspondence": "C04/Model.v::fold_sub vs codegen.rs::compile_expr (recursive as_const)", "template": "{{ " + s_ + " }}",
-                       "engine_ops": ops, "model_loadconst_lookup": ms, "profile": "release" if rel else "debug", "lang_ast": repr(lexprs[i][0])}, True)
+                       "engine_ops": ops, "model_loadconst_lookup": ms, "profile": prof(rel), "lang_ast": repr(lexprs[i][0])}, True)
     chk.cov["evaluations"] = 2 * (nvariants + 2 * len(lexprs) + len(dmeta) + nvar_e + nvar_f) + nb
     chk.cov["distinct_nontrivial"] = len(nontriv)
     chk.cov["rule"] = ("part A: generated expressions x EVERY subset of their literal positions hoisted into typed context variables (+ whole literal units), each variant loaded, rendered as `{{ E }}` and `{{ [E] }}` and evaluated through compile_expression, debug and release; "
